@@ -163,10 +163,10 @@ def run(chk, tier):
 
         # ---- R10.3 interior mutability census
         seen = set()
-        q = ['Unimock']
+        q = [('Unimock', None)]
         nleaf = 0
         while q:
-            a = q.pop(0)
+            a, via = q.pop(0)
             if a in seen or a not in F.adts:
                 continue
             seen.add(a)
@@ -174,12 +174,15 @@ def run(chk, tier):
                 for f in v['fields']:
                     for x in f.get('imut_direct', []):
                         if x.startswith('local:'):
-                            q.append(x[6:])
+                            # (a single-field wrapper struct that does not exist on the reference tree stands for the field it wraps)
+                            q.append((x[6:], (a, f['name']) if x[6:] in getattr(F, 'transparent', ()) else None))
                             continue
                         if BENIGN_LEAF.search(x):
                             continue
                         nleaf += 1
                         allow = IMUT_ALLOW.get((a, f['name']))
+                        if allow is None and via is not None and a in getattr(F, 'transparent', ()):
+                            allow = IMUT_ALLOW.get(via)
                         if allow is None and f['name'] in write_only and re.search(r'^core::sync::atomic::Atomic\w*$', x):
                             allow = [r'^core::sync::atomic::Atomic\w*$']      # a write-only statistic, see R10.1
                         ok = allow is not None and any(re.search(rx, x) for rx in allow)
@@ -223,10 +226,13 @@ def position_is_rmw(chk, F, rule, cfg):
                site='lookup.arg', what='position is not the RMW result', found=show(k), expected='Atomic::fetch_add(&self.call_counter.actual_count, 1, _)')
     sel = F.fn('eval::DynCtx::match_call_pattern')
     found = 0
-    for p in symex.Interp(F, inline=lambda f, d, n: f.kind in ('fn', 'assoc') and f.locals[0]['ty'] == 'usize' and len(f.blocks) < 30).run(sel):
+    from facts import strip_generics
+    from props import evalcore as E
+    bumpers = E.slot_bumpers(F)
+    for p in symex.Interp(F, inline=lambda f, d, n: f.kind in ('fn', 'assoc') and len(f.blocks) < 30 and (f.locals[0]['ty'] == 'usize' or strip_generics(f.defp) in bumpers)).run(sel):
         for e in p.calls(r'^fn_mocker::FnMocker::find_call_pattern_for_call_order$'):
             found += 1
-            k = strip(e.data[2][1])
+            k = E.unwrap_newtype(e.data[2][1])      # (the slot may travel in a newtype: `CallOrder(i)`)
             ok = is_call(k, r'Atomic\w*::fetch_add$') and field_path(k[2][0])[1][-2:] == ['shared_state', 'next_ordered_call_index']
             chk.ob(rule, 'the ordered slot used for lookup is the global counter\'s fetch_add return value, unchanged', ok, config=cfg, fn=sel,
                    site='slot-lookup.arg', what='slot is not the RMW result', found=show(k), expected='Atomic::fetch_add(&self.shared_state.next_ordered_call_index, 1, _)')
